@@ -362,6 +362,32 @@ func (s *Svc) ClosureTypes(ctx context.Context, row int, cb func(ctx context.Con
 	return cb(ctx, r.A, r.B, r.C, r.D, r.E, r.F, r.G, r.H, r.I, r.J)
 }
 
+// floatRows: narrower numeric types (values that float32 holds only approximately included).
+type floatRow struct {
+	A float32
+	B []float32
+	C int8
+	D []uint16
+	E []int32
+}
+
+func (r floatRow) render() string { return fmt.Sprintf("%v|%v|%d|%v|%v", r.A, r.B, r.C, r.D, r.E) }
+
+var floatRows = []floatRow{
+	{},
+	{A: 0.1, B: []float32{3.14, -0.7, 1e-3}, C: -128, D: []uint16{65535, 0}, E: []int32{-2147483648, 2147483647}},
+	{A: 16777216, B: []float32{0.1, 0, -2.5}, C: 127, D: []uint16{}, E: []int32{0}},
+	{A: -1e-20, B: []float32{3.4e38}, C: 1, D: []uint16{1}, E: nil},
+}
+
+// ClosureFloats invokes cb with row `row` of floatRows and reports the value and error it handed back.
+func (s *Svc) ClosureFloats(ctx context.Context, row int, cb func(ctx context.Context, a float32, b []float32, c int8, d []uint16, e []int32) (float32, error)) (string, error) {
+	s.log(ctx, "ClosureFloats", fmt.Sprint(row))
+	r := floatRows[row%len(floatRows)]
+	v, err := cb(ctx, r.A, r.B, r.C, r.D, r.E)
+	return fmt.Sprintf("%v|%v", v, err), nil
+}
+
 // ClosureResult invokes cb and reports the value and error it handed back.
 func (s *Svc) ClosureResult(ctx context.Context, want int, cb func(ctx context.Context, k int) ([]int, error)) (string, error) {
 	s.log(ctx, "ClosureResult", fmt.Sprint(want))
@@ -490,6 +516,7 @@ type Remote struct {
 	Panic       func(ctx context.Context, msg string) error
 	BadErr      func(ctx context.Context, kind int) error
 	BadErrVal   func(ctx context.Context, kind int) (int, error)
+	ClosureFloats func(ctx context.Context, row int, cb func(ctx context.Context, a float32, b []float32, c int8, d []uint16, e []int32) (float32, error)) (string, error)
 	ClosureTypes  func(ctx context.Context, row int, cb func(ctx context.Context, a int, b float64, c bool, d string, e []int, f []string, g uint8, h []float64, i []bool, j int64) (string, error)) (string, error)
 	ClosureResult func(ctx context.Context, want int, cb func(ctx context.Context, k int) ([]int, error)) (string, error)
 	EchoAll     func(ctx context.Context, a int, b string, c []byte, d []int, e map[string]int, f Inner, g *Inner, h float64, i bool, j []string, k [][]int, l *int) (All, error)
